@@ -28,6 +28,9 @@ type Req struct {
 	Err    string // non-empty when the harness made it fail
 	Miss   bool   // GET of a non-existing object
 	New    bool   // PUT that created the object (false: same bytes stored again)
+	// Bounded: the request's context can end (it has a deadline or can be cancelled). A
+	// request issued with an unbounded context waits for ever on a store that does not answer.
+	Bounded bool
 }
 
 func (r Req) String() string {
@@ -210,6 +213,9 @@ func (c *Client) begin(ctx aws.Context, op, key string) (int, error) {
 	s.mu.Lock()
 	s.seq++
 	r := Req{Seq: s.seq, Client: c.id, Op: op, Key: key}
+	if _, ok := ctx.Deadline(); ok || ctx.Done() != nil {
+		r.Bounded = true
+	}
 	idx := len(s.log)
 	s.log = append(s.log, r)
 	icpt := s.Intercept
